@@ -176,8 +176,8 @@ def run(ctx):
         from gen_files import path_of, to_line
         for _ in range(ctx.n(40, 400)):
             n = rnd.choice([0, 1, 2, 3, 7, 50])
-            off = rnd.choice([0.0, 0.5, -3.25, 1e-3, rnd.uniform(-100, 100)])
-            inc = rnd.choice([1.0, 0.001, 0.125, 2.0 ** -20, rnd.uniform(1e-6, 10)])
+            off = rnd.choice([0.0, 0.5, 0.75, -3.25, 1e-3, 0.0625 * 15, rnd.uniform(-100, 100)])
+            inc = rnd.choice([1.0, 0.001, 0.125, 0.75, 2.0 ** -20, rnd.uniform(1e-6, 10)])
             ssec, sfr = rnd.randint(0, 4 * 10 ** 9), rnd.getrandbits(64)
             p = path_of("g", "c")
             props = [(b"wf_increment", 10, struct.pack("<d", inc)), (b"wf_start_offset", 10, struct.pack("<d", off)),
@@ -219,6 +219,27 @@ def run(ctx):
                             break
                         # the start time is known to 1 us when it was converted on reading, else to one unit of `acc`
                         start_err = Fraction(1, 10 ** 6) if not raw else Fraction(1, R)
+                        # "wf_start_time plus THOSE offsets at the requested accuracy": relative to the start time as the channel holds it
+                        # (a datetime64, or a raw timestamp converted at `acc` — conversions checked above), sample i lies at the i-th
+                        # relative time expressed in units of `acc`, i.e. less than one unit from tt[i] * R (plus the rounding of one
+                        # float multiplication)
+                        sp = ch.properties["wf_start_time"]
+                        try:
+                            s64 = sp if isinstance(sp, np.datetime64) else sp.as_datetime64(acc)
+                        except Exception:
+                            s64 = None
+                        if s64 is not None:
+                            for i in range(n):
+                                d = (ab[i] - s64)
+                                du, dm = np.datetime_data(d.dtype)
+                                delta = Fraction(int(d.astype("int64")) * dm * R, {"s": 1, "ms": 10 ** 3, "us": 10 ** 6, "ns": 10 ** 9}[du])
+                                want = Fraction(float(tt[i])) * R
+                                if abs(delta - want) >= 1 + abs(want) * Fraction(1, 2 ** 50):
+                                    bad = "absolute time_track(accuracy=%r)[%d] is wf_start_time + %s %s, but time_track()[%d]=%r is %s %s" % (
+                                        acc, i, float(delta), acc, i, float(tt[i]), float(want), acc)
+                                    break
+                            if bad:
+                                break
                         for i in range(n):
                             exact = Fraction(ssec) + Fraction(sfr, 2 ** 64) + Fraction(off) + i * Fraction(inc) + EPOCH_UNIX_S
                             got = Fraction(int(ints[i]) * mult, Ru)
